@@ -161,6 +161,14 @@ def vrl(e, stmt=False):
         return "%s%s(%s)" % (e[1], "!" if e[2] else "", ", ".join(vrl(a) for a in e[3]))
     if k == "closure":
         return "%s(%s) -> |%s| %s" % (e[1], vrl(e[2]), ", ".join(p if p else "_" for p in e[3]), vrl_block(e[4]))
+    if k == "delext":
+        return "del(%s%s)" % (vrl_query_ext(e[1], e[2]), ", compact: true" if e[3] else "")
+    if k == "delvar":
+        return "del(%s%s%s)" % (e[1], vrl_path(e[2], first=False), ", compact: true" if e[3] else "")
+    if k == "existsext":
+        return "exists(%s)" % vrl_query_ext(e[1], e[2])
+    if k == "existsvar":
+        return "exists(%s%s)" % (e[1], vrl_path(e[2], first=False))
     raise ValueError("unknown node %r" % (k,))
 
 
@@ -228,6 +236,14 @@ def coq_expr(e):
         return "(ECall %s %s)" % (coq_ident(e[1]), coq_exprs(e[3]))
     if k == "closure":
         return "(EClosure %s %s [%s] %s)" % (CFN[e[1]], coq_expr(e[2]), "; ".join(coq_ident(p) for p in e[3]), coq_exprs(e[4]))
+    if k == "delext":
+        return "(EDelExt %s %s %s)" % (coq_pfx(e[1]), coq_path(e[2]), "true" if e[3] else "false")
+    if k == "delvar":
+        return "(EDelVar %s %s %s)" % (coq_ident(e[1]), coq_path(e[2]), "true" if e[3] else "false")
+    if k == "existsext":
+        return "(EExistsExt %s %s)" % (coq_pfx(e[1]), coq_path(e[2]))
+    if k == "existsvar":
+        return "(EExistsVar %s %s)" % (coq_ident(e[1]), coq_path(e[2]))
     raise ValueError(k)
 
 
@@ -251,15 +267,30 @@ def to_coq(case, out):
     if "panic" in out:
         raise ValueError("panic")
     names = case["vars"]
-    return "mkCase %s %s %s [%s] %s %s %s [%s]" % (
+    return "mkCase %s %s %s [%s] [%s] %s %s %s [%s] [%s] [%s] [%s]" % (
         coq_exprs(case["ast"]), coq_value(case["event"]), coq_value(case.get("meta", {"o": []})),
-        "; ".join(coq_ident(n) for n in names), coq_iout(out["result"]), coq_value(out["event"]),
-        coq_value(out["meta"]), "; ".join(coq_opt(out["vars"][n]) for n in names))
+        "; ".join(coq_ident(n) for n in names), "; ".join("true" if b else "false" for b in case.get("faults", [])),
+        coq_iout(out["result"]), coq_value(out["event"]),
+        coq_value(out["meta"]), "; ".join(coq_opt(out["vars"][n]) for n in names),
+        "; ".join(coq_top(t) for t in out.get("log", [])),
+        "; ".join("(%s, %s)" % (coq_pfx(t["pfx"]), coq_path(t["path"])) for t in out["info"]["queries"]),
+        "; ".join("(%s, %s)" % (coq_pfx(t["pfx"]), coq_path(t["path"])) for t in out["info"]["assignments"]))
+
+
+def coq_top(t):
+    pfx = coq_pfx(t["pfx"])
+    if t["op"] == "get":
+        return "TGet %s %s" % (pfx, coq_path(t["path"]))
+    if t["op"] == "ins":
+        return "TIns %s %s" % (pfx, coq_path(t["path"]))
+    if t["op"] == "rem":
+        return "TRem %s %s %s" % (pfx, coq_path(t["path"]), "true" if t["compact"] else "false")
+    raise ValueError("target operation %r has no model counterpart" % (t,))
 
 
 def harness_case(case):
     return {"src": vrl_program(case["ast"]).encode().hex(), "event": case["event"], "meta": case.get("meta", {"o": []}),
-            "vars": case["vars"]}
+            "vars": case["vars"], "faults": case.get("faults", []), "fault_mode": case.get("fault_mode", "err")}
 
 
 # ------------------------------------------------------------------ random program generator
@@ -346,8 +377,18 @@ class Gen:
             return ("block", self.stmts(d - 1, 3, self.inf))
         if c < 0.9:
             return ("assign", self.target(), self.inf(d - 1))
-        if c < 0.94:
+        if c < 0.92:
             return ("call", r.choice(["is_null", "is_string"]), False, [self.inf(d - 1)])
+        if c < 0.95:
+            c3 = r.random()
+            tp = [f(r.choice(self.fields + ["w1"]))] + self.path(1)
+            if c3 < 0.45:
+                return ("delext", "event", tp, r.random() < 0.4)
+            if c3 < 0.55:
+                return ("delext", "meta", [f(r.choice(["m1", "m2"]))], False)
+            if c3 < 0.85 or not self.defined:
+                return ("existsext", "event", tp)
+            return ("existsvar", r.choice(self.defined), self.path(2) or [f("p")])
         if c < 0.97:
             return ("qexpr", ("obj", [(k.encode().hex(), self.inf(d - 1)) for k in r.sample(["p", "q", "r"], r.randint(1, 3))]),
                     [f(r.choice(["p", "q"]))] + self.path(1))
@@ -380,6 +421,8 @@ class Gen:
             c2 = r.random()
             if c2 < 0.5:
                 return ("op", "eq", self.query(), self.lit())
+            if c2 < 0.6:
+                return ("existsext", "event", [f(r.choice(self.fields))] + self.path(1))
             if c2 < 0.7:
                 return ("lit", r.choice([True, False]))
             return ("call", "is_null", False, [self.query()])
@@ -698,7 +741,10 @@ def standard_main(run, pid, theorems, manifest, targeted, oracle, args, n_random
         reported += 1
         run.violation({"kind": "property fails on the implementation", "why": why, "case": cases[i],
                        "source": vrl_program(cases[i]["ast"]), "impl": outs[i], "model_agrees_with_impl": i not in bad_check})
-    for i in failed[:3]:
+    # a panic of the host is C04's (and, under injected faults, C17's) subject; for the other properties a
+    # program whose compilation or run panics yields no observation and is only counted
+    hard = [i for i in failed if pid in ("C04", "C17") or not any(k in outs[i] for k in ("panic", "crash"))]
+    for i in hard[:3]:
         run.violation({"kind": "implementation panicked / crashed / runs disagree", "case": cases[i],
                        "source": vrl_program(cases[i]["ast"]), "impl": outs[i]})
     if bad_check and not run.violations:
